@@ -436,12 +436,14 @@ package cache
 // counter: the representation invariant holds before the first request.
 //@ props C12 C16
 //@ func NewFileCache
+//@   assigns new:cache. onChange new:map_ new:atomic. new:sync. ghost:mapsum ghost:fsinode ghost:isize ghost:icontent ghost:handleinode ghost:gocount ghost:golastarg ghost:callcount ghost:tickerival
 //@   requires cfg != nil && aset(cfg.Cache.MaxCacheSize.value) && aset(cfg.Cache.CleanupInterval.value) && shardCount >= 1 && shardCount < 4294967296 && cleanupInterval > 0
 //@   requires specEventInv(cfg.Cache.MaxCacheSize.onChange) && cfg.Cache.MaxCacheSize.onChange.nextID < 18446744073709551615 && specEventInv(cfg.Cache.CleanupInterval.onChange) && cfg.Cache.CleanupInterval.onChange.nextID < 18446744073709551615
 //@   ensures [C12] result != nil && specFileInv(result) && result.byteSize.val.v == 0 && result.janitor != nil && result.maxCacheSize.val != nil
 
 //@ props C12 C16
 //@ func NewMemoryCache
+//@   assigns new:cache. onChange new:map_ new:atomic. new:sync. ghost:mapsum ghost:fsinode ghost:isize ghost:icontent ghost:handleinode ghost:gocount ghost:golastarg ghost:callcount ghost:tickerival
 //@   requires cfg != nil && aset(cfg.Cache.MaxCacheSize.value) && aset(cfg.Cache.CleanupInterval.value) && aset(cfg.Cache.Memory.MemoryBudgetPercent.value) && shardCount >= 1 && shardCount < 4294967296 && cleanupInterval > 0
 //@   requires specEventInv(cfg.Cache.MaxCacheSize.onChange) && cfg.Cache.MaxCacheSize.onChange.nextID < 18446744073709551615 && specEventInv(cfg.Cache.CleanupInterval.onChange) && cfg.Cache.CleanupInterval.onChange.nextID < 18446744073709551615 && specEventInv(cfg.Cache.Memory.MemoryBudgetPercent.onChange) && cfg.Cache.Memory.MemoryBudgetPercent.onChange.nextID < 18446744073709551615
 //@   ensures [C12] result != nil && specMemInv(result) && result.byteSize.val.v == 0 && result.janitor != nil && result.maxCacheSize.val != nil
